@@ -185,8 +185,8 @@ def to_serial_from_serial(dels):
         sym.check("rt:json_fixed_point", True)
 
 
-@lemma("C02", params=lambda: [(i,) for i in range(7)],
-       bounds="the 7 builder program templates followed by a mutation tail of 0..1 (quick) / 0..2 (thorough) steps chosen by the solver (delete a leaf "
+@lemma("C02", params=lambda: [(i,) for i in range(8)],
+       bounds="the 8 builder program templates followed by a mutation tail of 0..1 (quick) / 0..2 (thorough) steps chosen by the solver (delete a leaf "
               "operation node together with nothing else, add a node reusing a freed index, add a metadata entry, add an order link between siblings), "
               "then Hugr.load_json(h.to_json()): same JSON value on re-serialisation and same observable structure up to the written order",
        outside="longer mutation histories; attribute-level losses are C05's subject", opts={"max_paths": 100000, "timeout_s": 1500})
@@ -223,7 +223,7 @@ def json_roundtrip_of_programs(k):
     if ok:
         for idx in live:
             d, d2 = h[Node(idx)], h2[Node(rank[idx])]
-            ok = ok and type(d2.op) is type(d.op) or (isinstance(d.op, ops.AsExtOp) and isinstance(d2.op, ops.Custom))
+            ok = ok and (type(d2.op) is type(d.op) or (isinstance(d.op, ops.AsExtOp) and isinstance(d2.op, ops.Custom)))
             ok = ok and dict(d2.metadata) == dict(d.metadata)
             ok = ok and [c.idx for c in h2.children(Node(rank[idx]))] == [rank[c.idx] for c in h.children(Node(idx))]
     sym.check("same_ops_hierarchy_child_order_metadata", ok)
